@@ -5,19 +5,20 @@ from typing import Any
 
 from ..explore import charspace, corpus, edits, tokspace
 from ..oracle import run, tiling
+from . import c10
 
 ID = "C08"
 ENGINE = "E-CHR + E-LINE-style multi-line strings + char-E-EDIT + corpus, tiling oracle on the raw token stream"
 RULE = (
     "every string over the 19-character alphabet (nasty + form feed) up to the length bound, bare and in f-string / "
-    "triple-quoted / bracket carriers; every E-TOK xonsh sequence; every character edit of the corpus; every corpus file. "
+    "triple-quoted / bracket carriers; every string over the two f-string alphabets inside f-string carriers (double-quoted, brace-open, triple-quoted); C10's structured f-string products, adjacency forms and nested f-strings; every E-TOK xonsh sequence; every character edit of the corpus; every corpus file. "
     "Domain: generate_tokens finishes. Oracle: token text == source slice, ordered, non-overlapping, gaps are only "
     "line-leading whitespace or backslash-newline, one NEWLINE per logical line, INDENT/DEDENT balance, single final "
     "ENDMARKER. Non-trivial = tokenizer finished and produced > 2 tokens (distinct texts)."
 )
 BOUND = {
-    "quick": "nasty_ff^<=4 bare, ^<=3 in 6 carriers; ind^<=6; E-LINE depth 4; E-TOK xsh n<=3; char edits of 120 programs; 22 files",
-    "thorough": "nasty_ff^<=5 bare, ^<=4 in 6 carriers; ind^<=8; E-LINE depth 6; E-TOK xsh n<=4; char edits of all programs; 22 files",
+    "quick": "nasty_ff^<=4 bare, ^<=3 in 6 carriers; ind^<=6; fstr^<=4 in two f-string carriers; C10 f-string families; E-LINE depth 4; E-TOK xsh n<=3; char edits of 120 programs; 22 files",
+    "thorough": "nasty_ff^<=5 bare, ^<=4 in 6 carriers; ind^<=8; fstr^<=5 in two f-string carriers; C10 f-string families; E-LINE depth 6; E-TOK xsh n<=4; char edits of all programs; 22 files",
 }
 ASSUMPTIONS = ["lines are split at '\\n' only (io.StringIO.readline semantics)", "inputs on which the tokenizer raises are outside the property's domain and only counted"]
 CARR = ["f2", "f3", "str3", "paren", "sub", "withm"]
@@ -31,6 +32,11 @@ def units(tier: str) -> list[tuple]:
         us += charspace.units("nasty_ff", c, n - 1)
     us += charspace.units("ind", "bare", 6 if tier == "quick" else 8, split=3)
     us += tokspace.units("xsh", 3 if tier == "quick" else 4)
+    # f-string interiors: the tokenizer re-cuts tokens there (':=' at field level, '!=' , '{{', format specs)
+    us += charspace.units("fstr", "f2", n)
+    us += charspace.units("fstr", "fb", n)
+    us += charspace.units("fstr2", "f3", n - 1)
+    us += [("c10", u) for u in c10.units(tier) if u[0] in ("prod", "adj", "nest")]
     us += edits.char_units(tier)
     us += [("files",)]
     us += [("eline", 4 if tier == "quick" else 6)]
@@ -44,6 +50,8 @@ def cases(unit: tuple):
     elif k == "tok":
         for s, _ in tokspace.expand(unit):
             yield s
+    elif k == "c10":
+        yield from c10.cases(unit[1])
     elif k == "cedit":
         yield from edits.char_expand(unit)
     elif k == "files":
